@@ -20,8 +20,8 @@ PLAN = dict(
          "returned slices overwritten, Write's (n, err) and BlockSize(); inject: every single-bit flip of the last block with a "
          "full-size tag. Distinct = class keys (configuration | construction / cipher / padding / length class / size class / "
          "key or buffer placement)",
-    jobs=both("c19.tags", _CFG, shards=(4, 8), floor=100) + both("c19.cmacstream", _CFG, shards=(2, 4), floor=100)
-    + both("c19.inject", _CFG, shards=(2, 4), floor=50) + both("c19.buffers", _CFG, shards=(1, 8), floor=100),
+    jobs=both("c19.tags", _CFG, shards=(4, 16), floor=100) + both("c19.cmacstream", _CFG, shards=(2, 16), floor=100)
+    + both("c19.inject", _CFG, shards=(2, 8), floor=50) + both("c19.buffers", _CFG, shards=(2, 12), floor=100),
     assumptions=["reference constructions in harness/ref/mac (validated at every child start against the GB/T 15852.1 annex B "
                  "vectors for SM4) over harness/ref/sm4 and the standard library's AES/DES/3DES"],
 )
